@@ -51,7 +51,27 @@ func TestC05NonceStore(t *testing.T) {
 			}
 			n := rapid.IntRange(4, 30).Draw(rt, "steps")
 			for i := 0; i < n; i++ {
-				switch op := rapid.SampledFrom([]string{"submit", "submit", "submit", "submit", "advance", "advance", "reopen", "race"}).Draw(rt, "op"); op {
+				switch op := rapid.SampledFrom([]string{"submit", "submit", "submit", "submit", "advance", "advance", "reopen", "race", "burst"}).Draw(rt, "op"); op {
+				case "burst":
+					// a busy pool: many accepted requests of OTHER identities must not make the store forget anybody's nonce
+					k := rapid.SampledFrom([]int{10, 70, 130}).Draw(rt, "burst")
+					if driver == "badgerdisk" && k > 70 {
+						k = 70
+					}
+					for j := 0; j < k; j++ {
+						id := fmt.Sprintf("noise%d", j%7)
+						nonce := time.Now().UnixNano() + int64(j)
+						verdict := model.NonceVerdict(id, nonce)
+						err := st.CheckAndSaveNonce(id, nonce)
+						if (err == nil) != (verdict == "accept") && verdict != "either" {
+							fail("burst: CheckAndSaveNonce(%s, now+%d) -> %v, rule says %s", id, j, err, verdict)
+						}
+						if err == nil {
+							model.CommitNonce(id, nonce)
+						}
+					}
+					hist = append(hist, fmt.Sprintf("burst of %d accepted nonces by 7 other identities", k))
+					sigParts = append(sigParts, fmt.Sprintf("burst%d", k))
 				case "submit":
 					id := rapid.SampledFrom([]string{"a", "b", "c"}).Draw(rt, "id")
 					var delta int64
